@@ -89,7 +89,11 @@ Definition refines_move : Prop := forall s t sa ta nu r dest sa' ta' nu',
   exists s' t', dom_transfer s t nu r dest = Ok (s', t', nu') /\ Rep s' sa' /\ Rep t' ta' /\
                 uids_below nu' sa' /\ uids_below nu' ta' /\ nu <= nu'.
 
-(* clone_within: source and destination are the same DOM *)
+(* clone_within: source and destination are the same DOM.
+   NOTE: the two clone statements below were found to be too weak on their hypotheses while being
+   proved (see Proofs/RefClone.v: duplicate property keys can hide a UniqueId; the external case needs
+   the source's ids bounded too).  The statements that are proved are refines_clone_within' /
+   refines_clone_ext' in Proofs/RefClone.v, re-stated for a_clone in Proofs/RefCloneFinal.v. *)
 Definition refines_clone_within : Prop := forall d a nu nr rs a' nu' nr' roots,
   Rep d a -> uids_below nu a -> refs_below nr a -> prefs_below nr a ->
   a_clone a a nu nr rs = Some (a', nu', nr', roots) ->
